@@ -20,7 +20,7 @@ func init() {
 			"termination is decided by registry-call and nesting budgets computed from the program, not by a clock",
 		},
 		Parts: []Part{
-			{Name: "graphs", Run: c02Run, QuickS: 120, ThoroughS: 900},
+			{Name: "graphs", Run: c02Run, QuickS: 240, ThoroughS: 1200},
 			{Name: "typed-cycles", Run: c02Typed, QuickS: 90, ThoroughS: 600},
 		},
 	})
@@ -69,6 +69,41 @@ func c02Gen(c *core.Ctx) func(yield func(c02Case) bool) {
 			}
 		}
 		sliceOpt = false
+		// programmatic look-ups during initialisation: node i looks node j up inside its Init (the
+		// only outgoing "edge" of i may be such a look-up), eager and lazy targets
+		var lookups [][][]int // one look-up, or two (possibly facing each other)
+		for i := 0; i < 3; i++ {
+			for j := 0; j < 3; j++ {
+				if i != j {
+					lookups = append(lookups, [][]int{{i, j}})
+				}
+			}
+		}
+		for a := 0; a < 6; a++ {
+			for b := a + 1; b < 6; b++ {
+				lookups = append(lookups, [][]int{lookups[a][0], lookups[b][0]})
+			}
+		}
+		for _, lz := range []int{0, 2, 4, 6} {
+			ok := true
+			allGraphs(3, []int{scen.ENone, scen.EName}, false, func(e [][]int) bool {
+				for _, lk := range lookups {
+					for _, desc := range []bool{false, true} {
+						p := scen.GraphProg{N: 3, Edges: e, Lazy: []bool{false, lz&2 == 2, lz&4 == 4}, InitLookup: lk, Family: "initlookup-n3"}
+						if desc {
+							p.Base = []int{2, 1, 0}
+						}
+						if ok = yield(c02Case{p}); !ok {
+							return false
+						}
+					}
+				}
+				return true
+			})
+			if !ok {
+				return
+			}
+		}
 		// structured families, run completely
 		cyc := func(k, stride int, kind int) [][]int {
 			e := mkEdges(k)
@@ -204,7 +239,9 @@ func c02Run(c *core.Ctx) {
 		}
 		c.Outcome(p.Family + "/" + graphSig(o))
 		c.Sample(map[string]any{"program": p, "outcome": graphSig(o), "registry_calls": o.Trace.Calls, "peak_nesting": o.Trace.PeakDepth})
-		key := func(kind string) string { return "C02/" + kind + "/" + core.Hash(p.N, p.Edges, p.Base, p.SliceOpt) }
+		key := func(kind string) string {
+			return "C02/" + kind + "/" + core.Hash(p.N, p.Edges, p.Base, p.SliceOpt, p.Lazy, p.InitLookup)
+		}
 		switch {
 		case o.Abort != "":
 			c.Report(key("nonterm"), "non-termination", "start-up exceeded its budget: "+o.Abort, cs)
